@@ -52,7 +52,7 @@ pub const VIEW_MUT_KINDS: [&str; 6] = ["as_mut_slice", "DerefMut", "AsMut<[T]>",
 /// The vek operations of one vector type instantiated with `Tracked`.
 pub trait VecOps<const N: usize>: Fields<Tracked> {
     const NAME: &'static str;
-    type It: Iterator<Item = Tracked> + DoubleEndedIterator + ExactSizeIterator + Debug + PartialEq + Hash;
+    type It: Iterator<Item = Tracked> + DoubleEndedIterator + ExactSizeIterator + Debug + PartialEq + Eq + Hash;
     type Ids: Fields<u32>;
     type Pairs: Fields<(Tracked, Tracked)>;
     fn into_it(self) -> Self::It;
